@@ -15,6 +15,10 @@
 //	outlive <chunk> <seed>           the client writes <chunk> bytes every 40 ms until the tunnel is older than
 //	                                 the proxy's timeout (never idle): are they all forwarded? (open finding
 //	                                 c04:active-tunnel-cut-at-timeout; the model is told where the cut fell)
+//	openfake <lst> <tgt> <early> <banner> <seedC> <seedT> <status> <style>
+//	    route viafake with the raw downstream proxy's answer to the CONNECT spelled out: status 200|201|202|204|299
+//	    (any 2xx establishes the tunnel, RFC 9110 9.3.6) or a refusal (403|407|500|502|503: relayed with its body of
+//	    <banner> bytes, then the downstream proxy hangs up); style: std | noreason | custom | hdrs | cl0 | h10
 //	unreach <route> <lst> [<kind> [near|far]]
 //	                                 CONNECT whose dial fails with the given kind of error: refused (default) |
 //	                                 timeout (net.Error, Timeout() true) | eof | dns | ctx (context.DeadlineExceeded)
@@ -48,6 +52,7 @@ import (
 	"fmt"
 	"io"
 	"net"
+	"net/http"
 	"net/url"
 	"os"
 	"strconv"
@@ -341,6 +346,9 @@ type ex struct {
 	released  string
 	route     string
 	nUnreach  int
+	fakeStatus int    // op openfake: the raw downstream proxy's answer
+	fakeStyle  string
+	fakeSeed   int
 	openedAt  time.Time     // just before the client connected (handleLoop arms its deadline after Accept)
 	timeout   time.Duration // Proxy.SetTimeout of the proxy under test
 }
@@ -442,9 +450,46 @@ func (e *ex) newProxy(lst, tgt string, down string, timeout time.Duration) (stri
 	return l.Addr().String(), true
 }
 
+// fakeHead is the downstream proxy's answer to the CONNECT, in one of the spellings seen in the wild.
+func fakeHead(status int, style, extra string) []byte {
+	reason := http.StatusText(status)
+	if reason == "" {
+		reason = "Whatever"
+	}
+	proto, hdr := "HTTP/1.1", ""
+	switch style {
+	case "noreason":
+		reason = ""
+	case "custom":
+		reason = "Connection established"
+	case "hdrs":
+		hdr = "Via: 1.1 fake\r\nProxy-Agent: fake/1.0\r\nProxy-Connection: keep-alive\r\nX-Pad: " + strings.Repeat("p", 300) + "\r\n"
+	case "cl0":
+		if extra == "" {
+			hdr = "Content-Length: 0\r\n"
+		}
+	case "h10":
+		proto, reason = "HTTP/1.0", "Connection established"
+	}
+	line := proto + " " + strconv.Itoa(status)
+	if reason != "" {
+		line += " " + reason
+	}
+	return []byte(line + "\r\n" + hdr + extra + "\r\n")
+}
+
+var (
+	fakeStatuses = []int{200, 201, 202, 204, 299, 403, 407, 500, 502, 503}
+	fakeStyles   = []string{"std", "noreason", "custom", "hdrs", "cl0", "h10"}
+)
+
 // fakeProxy is a raw downstream proxy: it answers CONNECT with a 200 that has no Content-Length
 // and, in the same write, the first `banner` bytes the target has sent.
 func (e *ex) fakeProxy(banner int) (string, bool) {
+	status, style, seedT := e.fakeStatus, e.fakeStyle, e.fakeSeed
+	if status == 0 {
+		status, style = 200, "custom"
+	}
 	l, ok := e.listen()
 	if !ok {
 		return "", false
@@ -471,6 +516,20 @@ func (e *ex) fakeProxy(banner int) (string, bool) {
 			}
 		}
 		c.SetReadDeadline(time.Time{})
+		if status/100 != 2 {
+			// a refusal: head, a body of `banner` bytes delimited by Content-Length, hang up
+			body := make([]byte, banner)
+			for i := range body {
+				body[i] = pat(seedT, i)
+			}
+			c.Write(append(fakeHead(status, style, fmt.Sprintf("Content-Length: %d\r\n", banner)), body...))
+			if tc, ok := c.(*net.TCPConn); ok {
+				tc.CloseWrite()
+			}
+			c.SetReadDeadline(time.Now().Add(3 * time.Second))
+			io.Copy(io.Discard, br) // read what the proxy still sends, so that our close is a FIN
+			return
+		}
 		t, err := net.DialTimeout("tcp", host, 5*time.Second)
 		if err != nil {
 			c.Write([]byte("HTTP/1.1 502 Bad Gateway\r\nWarning: 199 \"fake\" \"unreachable\"\r\nContent-Length: 0\r\n\r\n"))
@@ -487,7 +546,7 @@ func (e *ex) fakeProxy(banner int) (string, bool) {
 			}
 		}
 		t.SetReadDeadline(time.Time{})
-		c.Write(append([]byte("HTTP/1.1 200 Connection established\r\n\r\n"), ahead...))
+		c.Write(append(fakeHead(status, style, ""), ahead...))
 		done := make(chan bool, 2)
 		pump := func(dst, src net.Conn, r *bufio.Reader) {
 			buf := make([]byte, 32<<10)
@@ -778,12 +837,32 @@ func (e *ex) do(op string) core.Result {
 	case "unreach":
 		return e.unreach(f)
 
-	case "open":
+	case "open", "openfake":
 		if e.opened || e.status != 0 {
 			return core.Result{Impl: "bad-op"}
 		}
 		var route, lst, tgt string
 		var early, banner, seedC, seedT int
+		want := 200 // the acknowledgement the client must get
+		if f[0] == "openfake" {
+			if len(f) != 9 {
+				return core.Result{Impl: "bad-op"}
+			}
+			okS, okY := false, false
+			for _, x := range fakeStatuses {
+				okS = okS || x == atoi(f[7])
+			}
+			for _, x := range fakeStyles {
+				okY = okY || x == f[8]
+			}
+			if !okS || !okY || (atoi(f[7])/100 != 2 && atoi(f[3]) != 0) {
+				return core.Result{Impl: "bad-op"}
+			}
+			e.fakeStatus, e.fakeStyle, e.fakeSeed = atoi(f[7]), f[8], atoi(f[6])
+			want = e.fakeStatus
+			core.Count(fmt.Sprintf("downstream-answer:%d:%s", e.fakeStatus, e.fakeStyle))
+			f = []string{"open", "viafake", f[1], f[2], f[3], f[4], f[5], f[6]}
+		}
 		if len(f) != 8 && len(f) != 9 {
 			return core.Result{Impl: "bad-op"}
 		}
@@ -847,6 +926,21 @@ func (e *ex) do(op string) core.Result {
 			return core.Result{Impl: "setup-failed", Fail: "client write: " + err.Error(), Sig: "c04:setup"}
 		}
 		e.c.sent.add(eb)
+		if want/100 != 2 {
+			// a refusal by the downstream proxy: relayed with its body; the downstream proxy hangs up, so the
+			// client sees end-of-stream. Not a clause of the property: compared with the model only.
+			st, _, _ := readHead(cc, e.c.rd)
+			e.status = st
+			e.c.start()
+			waitQuiet(func() bool { _, eof := e.c.snap(); return eof }, func() int { d, _ := e.c.snap(); return d.n })
+			cd, ceof := e.c.snap()
+			b := "0"
+			if ceof {
+				b = "1"
+			}
+			core.Count("outcome:downstream-refusal")
+			return core.Result{Impl: fmt.Sprintf("status %d c=%s ceof=%s", st, cd, b)}
+		}
 		{
 			// the target speaks first: banner
 			select {
@@ -871,14 +965,18 @@ func (e *ex) do(op string) core.Result {
 		}
 		st, warn, err := readHead(cc, e.c.rd)
 		e.status, e.warning = st, warn
-		if err != nil || st != 200 {
+		if err != nil || st/100 != 2 {
+			sig := "c04:no-200"
+			if want != 200 {
+				sig = fmt.Sprintf("c04:no-2xx-ack:%d", want)
+			}
 			return core.Result{Impl: fmt.Sprintf("status %d", st),
-				Fail: fmt.Sprintf("CONNECT to a listening target: no 200 head within %v (status %d, err %v)", bound, st, err), Sig: "c04:no-200"}
+				Fail: fmt.Sprintf("CONNECT to a listening target (the downstream side acknowledged with %d): no 2xx head at the client within %v (status %d, err %v)", want, bound, st, err), Sig: sig}
 		}
 		e.opened = true
 		e.c.start()
 		e.waitDelivered()
-		impl := "status 200 " + e.obs()
+		impl := fmt.Sprintf("status %d ", st) + e.obs()
 		if td, _ := e.t.snap(); td != e.c.sent {
 			return core.Result{Impl: impl, Sig: "c04:early-data-not-delivered",
 				Fail: fmt.Sprintf("%d bytes sent in the same write as the CONNECT head: the target has received %s (want %s) %v later", early, td, e.c.sent, bound)}
@@ -1425,6 +1523,7 @@ func (P) Gen(r *core.Rand, tier string, emit0 func(ops []string)) {
 	emit := func(ops []string) { mainCases++; emit0(ops) }
 	routes := []string{"direct", "via", "viafake"}
 	lsts := []string{"tcp", "plain", "tls"}
+	diagF := r.Intn(3)
 	// a failed dial on every route/listener: every kind of dial error, at the proxy's own dial and at the
 	// downstream proxy's, several on one connection (it must keep serving)
 	for _, ro := range []string{"direct", "via"} {
@@ -1446,6 +1545,25 @@ func (P) Gen(r *core.Rand, tier string, emit0 func(ops []string)) {
 					ops = append(ops, fmt.Sprintf("unreach %s %s %s %s", ro, l, dialKinds[i], w))
 				}
 				emit(ops)
+			}
+		}
+	}
+	// the downstream proxy's answer to the CONNECT: every 2xx (any spelling) establishes the tunnel, with and
+	// without tunnel bytes in the same segment; refusals are relayed
+	for i, st := range fakeStatuses {
+		for j, style := range fakeStyles {
+			if tier != "thorough" && (i+j)%3 != int(diagF) {
+				continue
+			}
+			l, tg := lsts[(i+j)%3], []string{"tcp", "plain"}[(i+2*j)%2]
+			if st/100 == 2 {
+				banner := []int{0, 700, 5, 3000}[(i+j)%4]
+				c := genCase(r.Fork(), tier, "viafake", l, tg, earlySizes[(i*2+j)%len(earlySizes)], banner, "")
+				head := strings.Fields(c[0])
+				c[0] = fmt.Sprintf("openfake %s %s %s %s %s %s %d %s", head[2], head[3], head[4], head[5], head[6], head[7], st, style)
+				emit(c)
+			} else {
+				emit([]string{fmt.Sprintf("openfake %s %s 0 %d %d %d %d %s", l, tg, []int{0, 5, 900}[(i+j)%3], r.Intn(256), r.Intn(256), st, style)})
 			}
 		}
 	}
